@@ -1,7 +1,7 @@
 """C02 — every value produced is in range; out-of-range results are RangeErrors (structural clauses)."""
 from ._std import *
 from ..rules import intervals, typestate
-from ..rules.common import hir_walk, node_line, fold, find_trait_fn
+from ..rules.common import hir_walk, node_line, fold, find_trait_fn, tri
 from ..facts import fixture_facts
 
 EXPLANATION = (
@@ -23,8 +23,8 @@ SWALLOW_EXCEPTIONS = {
 
 def check_swallowed(run, fx):
     rule = "R7a.result-not-swallowed"
-    run.rule(rule, "no Result<_, TemporalError> is turned into a value by unwrap_or / unwrap_or_default / unwrap_or_else / "
-                   "ok() or discarded by `let _ =` / `_ =`: a RangeError must reach the caller")
+    run.rule(rule, "no Result<_, TemporalError> is turned into a value by unwrap_or / unwrap_or_default / unwrap_or_else "
+                   "(directly or after .ok()) or discarded by `let _ =` / `_ =`: a RangeError must reach the caller")
     n = 0
     for c in ("temporal_rs",):
         for f in fx[c].fns:
@@ -35,10 +35,20 @@ def check_swallowed(run, fx):
                 if not isinstance(x, dict):
                     continue
                 hit = None
-                if x.get("k") == "mcall" and x["name"] in ("unwrap_or_default", "unwrap_or", "ok", "unwrap_or_else"):
+                if x.get("k") == "mcall" and x["name"] in ("unwrap_or_default", "unwrap_or", "unwrap_or_else"):
                     rt = str(x.get("recv_ty", "")).lstrip("&")
                     if rt.startswith("core::result::Result<") and "temporal_rs::error::TemporalError>" in rt:
                         hit = x["name"]
+                    else:
+                        # `.ok()` alone only changes the carrier (it is `if let Ok(..)` written as a method: trying the next
+                        # alternative of a grammar, say); it swallows the error when a default value is substituted next
+                        r = x.get("recv") or {}
+                        while isinstance(r, dict) and r.get("k") == "mcall" and r.get("name") in ("map", "and_then", "filter", "copied", "cloned"):
+                            r = r.get("recv") or {}
+                        if isinstance(r, dict) and r.get("k") == "mcall" and r.get("name") == "ok":
+                            rt = str(r.get("recv_ty", "")).lstrip("&")
+                            if rt.startswith("core::result::Result<") and "temporal_rs::error::TemporalError>" in rt:
+                                hit = "ok+" + x["name"]
                 elif x.get("k") == "let" and x["pat"].get("k") == "wild" and x.get("init") is not None and \
                         "temporal_rs::error::TemporalError>" in str(x["init"].get("ty", "")):
                     hit = "let_"
@@ -118,8 +128,8 @@ def check_limit_tables(run, fx, rs):
     else:
         for v, want in ((NSMAX, True), (NSMAX + 1, False), (-NSMAX, True), (-NSMAX - 1, False), (0, True)):
             got = fold(ev, f, [v])
-            run.check(got == ("val", want), rule, "epoch-nanos/%d" % v, "is_valid_epoch_nanos(%d) = %s" % (v, got[1]),
-                      "is_valid_epoch_nanos(%d) = %s, expected %s" % (v, got, want), f.loc)
+            tri(run, rule, "epoch-nanos/%d" % v, got, got == ("val", want), "is_valid_epoch_nanos(%d) = %s" % (v, got[1]),
+                "is_valid_epoch_nanos(%d) = %s, expected %s" % (v, got, want), f.loc)
     for tyname, vals in (("i128", ((NSMAX, True), (NSMAX + 1, False), (-NSMAX, True), (-NSMAX - 1, False))),
                          ("u128", ((NSMAX, True), (NSMAX + 1, False), (0, True)))):
         g = None
@@ -131,74 +141,92 @@ def check_limit_tables(run, fx, rs):
             continue
         for v, want in vals:
             k, r = fold(ev, g, [v])
-            run.check((k == "ok") == want and (want or r == "Range"), rule, "try_from<%s>/%d" % (tyname, v),
-                      "try_from(%d) -> %s" % (v, k), "EpochNanoseconds::try_from::<%s>(%d) -> %s %s, expected %s" %
-                      (tyname, v, k, r, "ok" if want else "RangeError"), g.loc)
-    # date-time limits: constants and operators, read from the normalised body
+            tri(run, rule, "try_from<%s>/%d" % (tyname, v), (k, r), (k == "ok") == want and (want or r == "Range"),
+                "try_from(%d) -> %s" % (v, k), "EpochNanoseconds::try_from::<%s>(%d) -> %s %s, expected %s" %
+                (tyname, v, k, str(r)[:80], "ok" if want else "RangeError"), g.loc)
+    # date-time limits: the limit function folded (everything inlined, kernels included) on the boundary records
     d = rs.fn("temporal_rs::iso::iso_dt_within_valid_limits")
     if d is None:
         run.anchor_missing(rule, "iso_dt_within_valid_limits", "not found")
     else:
-        ev2 = H.Evaluator(fx)
-        ev2.inline = lambda p: False
-        paths = ev2.paths(d, [H.Sym("param", ("date",)), H.Sym("param", ("time",))])
-        daycmp = None
-        final = None
-        for dec, res, tr in paths:
-            for cnd, ch in dec:
-                if "epoch_days_from_gregorian_date" in cnd or "to_epoch_days" in cnd:
-                    daycmp = cnd
-            if isinstance(res, H.Sym) and res.what == "&&":
-                final = res
-        okd = daycmp is not None and daycmp.startswith("bin>[") and daycmp.endswith(", 100000001]") and "abs[" in daycmp
-        run.check(okd, rule, "datetime/day-bound", "abs(epoch days) > 100000001 rejects",
-                  "the day bound of the date-time limit is `%s`; expected abs(epoch days) > 10^8 + 1" % daycmp, d.loc)
-        okf = False
-        desc = show(final) if final is not None else "none"
-        if final is not None:
-            a, b = final.parts
-            okf = isinstance(a, H.Sym) and a.what == "bin<" and a.parts[0] == -(NSMAX + DAY) and \
-                isinstance(b, H.Sym) and b.what == "bin>" and b.parts[0] == NSMAX + DAY and show(a.parts[1]) == show(b.parts[1])
-        run.check(okf, rule, "datetime/ns-bounds", "-(8.64e21+8.64e13) < ns < 8.64e21+8.64e13 (exclusive)",
-                  "the nanosecond bounds of the date-time limit are %s; expected %d < ns and %d > ns" %
-                  (desc[:200], -(NSMAX + DAY), NSMAX + DAY), d.loc)
-    # time duration cap
+        def date(y, m, dd):
+            return H.S("temporal_rs::iso::IsoDate", (("year", y), ("month", m), ("day", dd)))
+
+        def time(h=0, mi=0, sec=0, ms=0, us=0, ns=0):
+            return H.S("temporal_rs::iso::IsoTime", (("hour", h), ("minute", mi), ("second", sec), ("millisecond", ms),
+                                                     ("microsecond", us), ("nanosecond", ns)))
+        table = (("-271821-04-19T00:00:00", date(-271821, 4, 19), time(), False),
+                 ("-271821-04-19T00:00:00.000000001", date(-271821, 4, 19), time(ns=1), True),
+                 ("-271821-04-18T23:59:59.999999999", date(-271821, 4, 18), time(23, 59, 59, 999, 999, 999), False),
+                 ("+275760-09-13T23:59:59.999999999", date(275760, 9, 13), time(23, 59, 59, 999, 999, 999), True),
+                 ("+275760-09-14T00:00:00", date(275760, 9, 14), time(), False),
+                 ("+275761-01-01T00:00:00", date(275761, 1, 1), time(), False),
+                 ("-271822-12-31T00:00:00", date(-271822, 12, 31), time(), False),
+                 ("1970-01-01T00:00:00", date(1970, 1, 1), time(), True))
+        for name, dt, tm, want in table:
+            got = fold(H.Evaluator(fx), d, [dt, tm])
+            tri(run, rule, "datetime/" + name, got, got == ("val", want), "within limits(%s) = %s" % (name, want),
+                "iso_dt_within_valid_limits(%s) = %s, the date-time limits (exclusive, one day beyond the instant range) give %s" %
+                (name, got[1], want), d.loc)
+        run.exhaustive_tables.append("date-time limit boundary records (8)")
+    # time duration cap: every checked producer folded at the cap and one nanosecond beyond
+    MAXTD = 2 ** 53 * 10 ** 9 - 1
     mt = rs.consts.get("temporal_rs::builtins::core::duration::normalized::MAX_TIME_DURATION")
-    run.check(mt is not None and mt["val"] == 2 ** 53 * 10 ** 9 - 1, rule, "MAX_TIME_DURATION", "2^53 x 10^9 - 1",
-              "MAX_TIME_DURATION is %s, expected %d" % (mt and mt["val"], 2 ** 53 * 10 ** 9 - 1))
-    n = 0
-    for f2 in rs.fns:
-        if f2.hir is None or f2.file != "src/builtins/core/duration/normalized.rs" or f2.kind == "Closure":
+    if mt is not None:
+        run.check(mt["val"] == MAXTD, rule, "MAX_TIME_DURATION", "2^53 x 10^9 - 1",
+                  "MAX_TIME_DURATION is %s, expected %d" % (mt["val"], MAXTD))
+    N = "temporal_rs::builtins::core::duration::normalized::NormalizedTimeDuration"
+    nv = lambda x: H.V(N, (x,))
+    DAYNS = 86_400_000_000_000
+    producers = (
+        ("from_nanosecond_difference", rs.fn1("NormalizedTimeDuration::from_nanosecond_difference"),
+         ([MAXTD, 0], [MAXTD + 1, 0], [-MAXTD, 0], [-MAXTD - 1, 0])),
+        ("add_days", rs.fn1("NormalizedTimeDuration::add_days"),
+         ([nv(MAXTD % DAYNS), MAXTD // DAYNS], [nv(MAXTD % DAYNS + 1), MAXTD // DAYNS],
+          [nv(-(MAXTD % DAYNS)), -(MAXTD // DAYNS)], [nv(-(MAXTD % DAYNS) - 1), -(MAXTD // DAYNS)])),
+        ("checked_add", rs.fn1("NormalizedTimeDuration::checked_add"),
+         ([nv(MAXTD - 1), 1], [nv(MAXTD), 1], [nv(-MAXTD + 1), -1], [nv(-MAXTD), -1])),
+        ("checked_sub", rs.fn1("NormalizedTimeDuration::checked_sub"),
+         ([nv(MAXTD - 1), nv(-1)], [nv(MAXTD), nv(-1)], [nv(-MAXTD + 1), nv(1)], [nv(-MAXTD), nv(1)])),
+        ("Add::add", find_trait_fn(rs, N, "ops::arith::Add<temporal_rs::builtins::core::duration::normalized::NormalizedTimeDuration>", "add")
+         or find_trait_fn(rs, N, "Add", "add") or next((g for g in rs.fns if g.name == "add" and (g.d.get("impl_self") or "") == N), None),
+         ([nv(MAXTD - 1), nv(1)], [nv(MAXTD), nv(1)], [nv(-MAXTD + 1), nv(-1)], [nv(-MAXTD), nv(-1)])),
+    )
+    decided = 0
+    for pname, pf, cases in producers:
+        if pf is None:
+            run.anchor_missing(rule, "max-time-duration/" + pname, "NormalizedTimeDuration::%s not found" % pname)
             continue
-        for x in hir_walk(f2.hir):
-            if isinstance(x, dict) and x.get("k") == "if" and x["cond"].get("k") == "bin":
-                c2 = x["cond"]
-                names2 = [str(y["res"].get("def", "")) for y in hir_walk(c2) if isinstance(y, dict) and y.get("k") == "path"]
-                if any(nm.endswith("MAX_TIME_DURATION") for nm in names2):
-                    n += 1
-                    isabs = c2["a"].get("k") == "mcall" and c2["a"]["name"] == "abs"
-                    run.check(c2["op"] == ">" and isabs, rule, "%s/max-time-duration#%d" % (f2.path, n),
-                              "abs(x) > MAX_TIME_DURATION", "%s compares with MAX_TIME_DURATION using `%s`%s; the cap is "
-                              "abs(x) > MAX_TIME_DURATION" % (f2.name, c2["op"], "" if isabs else " without abs()"),
-                              "%s:%s" % (f2.file, node_line(c2)))
-    if n < 5:
-        run.anchor_missing(rule, "max-time-duration-sites", "only %d comparisons with MAX_TIME_DURATION found" % n)
+        for i, args in enumerate(cases):
+            want_ok = i % 2 == 0
+            got = fold(H.Evaluator(fx), pf, list(args))
+            r = tri(run, rule, "max-time-duration/%s#%d" % (pname, i), got,
+                    (got[0] == "ok") if want_ok else (got == ("err", "Range")),
+                    "%s %s the cap" % (pname, "accepts a total at" if want_ok else "rejects a total one nanosecond beyond"),
+                    "NormalizedTimeDuration::%s %s: got %s %s (the cap is abs(total) > 2^53 x 10^9 - 1 -> RangeError)" %
+                    (pname, "rejects a total exactly at the cap" if want_ok else "accepts a total one nanosecond beyond the cap",
+                     got[0], str(got[1])[:60]), pf.loc)
+            decided += r is not None
+    run.analysed["max_time_duration_cells_decided"] = decided
     # as_date_value
     adv = rs.fn("temporal_rs::primitive::FiniteF64::as_date_value")
     if adv is not None:
         F = "temporal_rs::primitive::FiniteF64"
         for v, want in ((2147483647.0, True), (2147483648.0, False), (-2147483648.0, True), (-2147483649.0, False)):
             k, r = fold(ev, adv, [H.V(F, (v,))])
-            run.check((k == "ok") == want and (want or r == "Range"), rule, "as_date_value/%d" % int(v),
-                      "as_date_value(%d) -> %s" % (v, k), "as_date_value(%d) -> %s %s" % (v, k, r), adv.loc)
+            tri(run, rule, "as_date_value/%d" % int(v), (k, r), (k == "ok") == want and (want or r == "Range"),
+                "as_date_value(%d) -> %s" % (v, k), "as_date_value(%d) -> %s %s" % (v, k, str(r)[:80]), adv.loc)
     else:
         run.anchor_missing(rule, "as_date_value", "not found")
     dr = rs.fn("temporal_rs::iso::IsoDate::is_valid_day_range")
     if dr is not None:
-        lits = [y["v"].get("int") for y in hir_walk(dr.hir) if isinstance(y, dict) and y.get("k") == "lit" and "int" in y["v"]]
-        ops = [y["op"] for y in hir_walk(dr.hir) if isinstance(y, dict) and y.get("k") == "bin" and y["op"] in (">", ">=")]
-        run.check(lits == [100_000_000] and ops == [">"], rule, "day-range", "abs(epoch days) > 10^8 rejects",
-                  "is_valid_day_range compares with %s using %s" % (lits, ops), dr.loc)
+        # folded at +-10^8 days from the epoch and one day beyond
+        for name, (y, m, dd), want in (("+275760-09-13", (275760, 9, 13), True), ("+275760-09-14", (275760, 9, 14), False),
+                                       ("-271821-04-20", (-271821, 4, 20), True), ("-271821-04-19", (-271821, 4, 19), False)):
+            got = fold(H.Evaluator(fx), dr, [H.S("temporal_rs::iso::IsoDate", (("year", y), ("month", m), ("day", dd)))])
+            tri(run, rule, "day-range/" + name, got, (got[0] == "ok") if want else (got == ("err", "Range")),
+                "is_valid_day_range(%s) %s" % (name, "accepts" if want else "is a RangeError"),
+                "is_valid_day_range(%s) gives %s %s; the range is abs(epoch days) <= 10^8" % (name, got[0], str(got[1])[:60]), dr.loc)
 
 
 def narrowing(run, fx):
